@@ -365,11 +365,12 @@ def run_cases(exe, casefile, env=None, timeout=1800, max_restarts=200, extra_arg
             results['__harness__'] = 'CRASH:' + (sanitizer_kind(err) or f'exit{rc}') + ' ' + err[-300:]
             break
         cur = running[-1]
+        died = 'timeout' if rc == -14 else f'exit{rc}'      # -14: SIGALRM of the per-case watchdog
         if cur in results:   # died after printing the result (e.g. at exit)
-            kind = sanitizer_kind(err) or f'exit{rc}'
+            kind = sanitizer_kind(err) or died
             results[cur] = results[cur] + ' CRASH-AFTER:' + kind
         else:
-            results[cur] = 'CRASH:' + (sanitizer_kind(err) or f'exit{rc}')
+            results[cur] = 'CRASH:' + (sanitizer_kind(err) or died)
         restarts += 1
         try:
             nxt = ids[ids.index(cur) + 1]
